@@ -26,7 +26,8 @@ theorem declareAll_keys {pkg fuel} : ∀ {cs : Components} {os : Objects}, decla
     simp [declareAll_keys h3]
 
 theorem declareAll_get {pkg fuel} : ∀ {cs : Components} {os : Objects}, declareAll pkg fuel cs = .ok os →
-    ∀ name, (∀ o, rget name os = some o → ∃ r, lookupComp cs name = some r ∧ walkSchemaRef pkg fuel r = .ok o.ty) ∧
+    ∀ name, (∀ o, rget name os = some o → ∃ r, lookupComp cs name = some r ∧ walkSchemaRef pkg fuel r = .ok o.ty ∧
+                  o.selfPkg = pkg ∧ o.selfName = name) ∧
             (∀ r, lookupComp cs name = some r → (rget name os).isSome = true)
   | [], os, h, name => by
     simp [declareAll] at h; subst h
@@ -39,7 +40,7 @@ theorem declareAll_get {pkg fuel} : ∀ {cs : Components} {os : Objects}, declar
     have ih := declareAll_get h3 name
     by_cases e : n = name
     · subst e
-      exact ⟨by intro o ho; simp [rget] at ho; subst ho; exact ⟨r, by simp [lookupComp], h1⟩,
+      exact ⟨by intro o ho; simp [rget] at ho; subst ho; exact ⟨r, by simp [lookupComp], h1, rfl, rfl⟩,
              by intro r' _; simp [rget]⟩
     · exact ⟨by intro o ho; simp [rget, e] at ho; obtain ⟨r', a, b⟩ := ih.1 o ho; exact ⟨r', by simp [lookupComp, e, a], b⟩,
              by intro r' hr; simp [lookupComp, e] at hr; simp [rget, e]; exact ih.2 r' hr⟩
@@ -55,6 +56,7 @@ theorem keysNodupC_nodup : ∀ {cs : Components}, keysNodupC cs = true → (cs.m
 structure OWorld (pkg : String) (cs : Components) (S : Schemas) : Prop where
   obj : ∀ name o, Schemas.locateObject S pkg name = some o → ∃ r, lookupComp cs name = some r ∧ Builds pkg r o.ty
   has : ∀ name r, lookupComp cs name = some r → (Schemas.locateObject S pkg name).isSome = true
+  self : ∀ name o, Schemas.locateObject S pkg name = some o → o.selfPkg = pkg ∧ o.selfName = name
 
 theorem frontEnd_spec (pkg : String) (fuel : Nat) (cs : Components) (S : Schemas)
     (hk : keysNodupC cs = true) (h : frontEnd pkg fuel cs = .ok S) : OWorld pkg cs S := by
@@ -69,14 +71,18 @@ theorem frontEnd_spec (pkg : String) (fuel : Nat) (cs : Components) (S : Schemas
     intro n
     subst h4
     simp [Schemas.locateObject, Schemas.locate, Schema.locateObject, sortObjects, rget_perm (isort_perm _ os).symm nd]
-  refine ⟨?_, ?_⟩
+  refine ⟨?_, ?_, ?_⟩
   · intro name o ho
     rw [hloc] at ho
-    obtain ⟨r, a, b⟩ := (declareAll_get h3 name).1 o ho
+    obtain ⟨r, a, b, _⟩ := (declareAll_get h3 name).1 o ho
     exact ⟨r, a, fuel, b⟩
   · intro name r hr
     rw [hloc]
     exact (declareAll_get h3 name).2 r hr
+  · intro name o ho
+    rw [hloc] at ho
+    obtain ⟨r, _, _, c, d⟩ := (declareAll_get h3 name).1 o ho
+    exact ⟨c, d⟩
 
 /-! ### the view -/
 
